@@ -20,10 +20,12 @@ WATCHDOG_S = 3000
 WEIRD = ("", " ", "x", "rho", "v_L0", "L0", "a+b", "q_o", "名前", "N1", "d", "w", "0", "None", "L 1", "x" * 40)
 
 
-class _FixedK:
-    """Stands in for the call-form generator: always the same number of positional arguments."""
+class _FixedK(random.Random):
+    """Stands in for the call-form generator: always the same number of positional arguments (everything
+    else it is asked for - shuffles, choices - behaves like an ordinary generator)."""
 
     def __init__(self, k):
+        super().__init__(12345)
         self.k = k
 
     def random(self):
